@@ -38,6 +38,34 @@ CLAIMED = {
         "DESIGN.md section 8, C14",
         "seeded search over bootstrap graphs x NAT kinds x hair-pin source addresses; bounded liveness + invariant",
     ),
+    "C10": (
+        "exploration",
+        "Forwarding family scenario (sim/src/fwd.rs): 2-5 real nodes, modes normal/router/switch/hub on tun and tap, 20-120 operations per run (thorough: up to 300): marked frames and packets (24..9000 bytes; destinations claimed / learned / unknown / broadcast / own; truncated frames), time steps of 0/1/switch timeout -1,+0,+1 (switch timeout 2..300 s), restarts on the same address with another claim set, graceful stops, crashes, one-way partitions, optional loss. C10 oracle (conservation per step): handling one interface read emits exactly one datagram per peer selected by the node's own lookup (probe) and nothing else; handling a received payload emits no datagram; every interface write is byte-identical to a frame read at a peer, comes from a current peer and is caused by exactly one datagram; at the end every marked frame was written at most once per node, never at its origin, only at selected peers, and at every selected peer when membership was stable and the network loss-free.",
+        "Trusted: simulator seams and the harness' cause tagging of wire datagrams (which step emitted them). Steps in which housekeeping ran are excluded from the exact datagram count (announcements are emitted in the same step). Relay detection needs no decryption.",
+        "DESIGN.md section 8, C10 and 8.1",
+        "seeded operation sequences; conservation invariants per step + exactly-once accounting over the history",
+    ),
+    "C11": (
+        "exploration",
+        "Forwarding family scenario (sim/src/fwd.rs): 2-5 real nodes, modes normal/router/switch/hub on tun and tap, 20-120 operations per run (thorough: up to 300): marked frames and packets (24..9000 bytes; destinations claimed / learned / unknown / broadcast / own; truncated frames), time steps of 0/1/switch timeout -1,+0,+1 (switch timeout 2..300 s), restarts on the same address with another claim set, graceful stops, crashes, one-way partitions, optional loss. C11 shapes: router/normal on tun (router on tap with MAC ranges), 1-3 claims per node from a nested/overlapping universe (IPv4 /0../32, IPv6). Oracle per interface read: the next hop (lookup probe) is the peer of a longest-prefix match over the claims in the table dump (independent bit-by-bit matcher) or a cached decision that the history-based reference still holds (made <= switch timeout ago, not beyond its claim's expiry, peer not removed, claim not withdrawn since, not past a sweep); no live claim: router mode emits nothing and the dropped-payload counter rises by one; cache entries never outlive the switch timeout or a sweep after their expiry.",
+        "Trusted: simulator seams, the reference matcher (sim/src/refmodel.rs). The exhaustive 8/16-bit prefix universes of the quantifier are a pure-function sweep and are not part of this simulation check; prefix arithmetic is exercised through the generated packets only (boundary addresses of every claim are in the destination grid).",
+        "DESIGN.md section 8, C11",
+        "seeded operation sequences with time steps around expiry; history-based reference for cached decisions",
+    ),
+    "C12": (
+        "exploration",
+        "Forwarding family scenario (sim/src/fwd.rs): 2-5 real nodes, modes normal/router/switch/hub on tun and tap, 20-120 operations per run (thorough: up to 300): marked frames and packets (24..9000 bytes; destinations claimed / learned / unknown / broadcast / own; truncated frames), time steps of 0/1/switch timeout -1,+0,+1 (switch timeout 2..300 s), restarts on the same address with another claim set, graceful stops, crashes, one-way partitions, optional loss. C12 shapes add membership changes in every run and tap/switch meshes (learned addresses). Oracle after every step of every node: every next hop in claims and cache is a current peer; the set of claims attributed to a connected peer equals the last announcement processed from it (history of ClaimsSet probes; missing claims accepted only after the peer timeout); nothing survives a sweep that ran after its timeout; no non-peer is ever selected as next hop.",
+        "Trusted: simulator seams; ClaimsSet/PeerRemoved probes as the record of what the node processed. Claim comparison is by set (duplicates in an announcement are not distinguished).",
+        "DESIGN.md section 8, C12",
+        "seeded membership histories; invariant after every step against the announcement history",
+    ),
+    "C13": (
+        "exploration",
+        "Forwarding family scenario (sim/src/fwd.rs): 2-5 real nodes, modes normal/router/switch/hub on tun and tap, 20-120 operations per run (thorough: up to 300): marked frames and packets (24..9000 bytes; destinations claimed / learned / unknown / broadcast / own; truncated frames), time steps of 0/1/switch timeout -1,+0,+1 (switch timeout 2..300 s), restarts on the same address with another claim set, graceful stops, crashes, one-way partitions, optional loss. C13 shapes: 3-5 tap nodes in switch/normal, hub and router mode; MAC universe x VLAN tags {none, 0, 1, 0x67, 0xfff} x all 16 PCP/DEI nibbles x nested tags. Reference learning table (VLAN-normalised source -> (peer, learned at); VLAN 0 = untagged; independent dissector) updated on every interface write; oracle per interface read: the destination goes to exactly the learned peer while the entry is live, to all peers once expired and swept, either inside the sweep granularity; re-learning from another peer and disconnects supersede; hub and router never learn.",
+        "Trusted: simulator seams, the reference dissector and learning table. The sweep over all 65536 tag-control values is a pure-function sweep and is sampled here (5 VLAN ids x 16 PCP/DEI nibbles).",
+        "DESIGN.md section 8, C13",
+        "seeded frame sequences with time steps around the switch timeout; reference learning table",
+    ),
 }
 
 NOT_APPLICABLE = {
